@@ -500,6 +500,9 @@ type vC04RelayScn struct {
 	} `json:"steps"`
 }
 
+// vC04RelaySeq numbers the generated relay histories: every third one is a PTR translation
+var vC04RelaySeq int
+
 func vC04Dns64Relay(out *vC04Out, r *rand.Rand, budget int, scn *vC04RelayScn) int {
 	env := vC04NewEnv(0, 0, 600)
 	defer env.close()
@@ -524,7 +527,8 @@ func vC04Dns64Relay(out *vC04Out, r *rand.Rand, budget int, scn *vC04RelayScn) i
 			}
 			return 0
 		}
-		p = &vC04RelayScn{Mode: []string{"basis", "basis", "ptr"}[r.Intn(3)], NegSOA: r.Intn(4) > 0, SoaTTL: ttls[r.Intn(len(ttls))], SoaMin: ttls[r.Intn(len(ttls))],
+		vC04RelaySeq++
+		p = &vC04RelayScn{Mode: []string{"basis", "ptr", "basis"}[vC04RelaySeq%3], NegSOA: r.Intn(4) > 0, SoaTTL: ttls[r.Intn(len(ttls))], SoaMin: ttls[r.Intn(len(ttls))],
 			NegLease: rndLease(), ABare: r.Intn(4) == 0, ASoaTTL: ttls[r.Intn(len(ttls))], ASoaMin: ttls[r.Intn(len(ttls))], ALease: rndLease(),
 			Alias: r.Intn(3) == 0, CnameTTL: ttls[r.Intn(len(ttls))], TLease: rndLease(), PtrTTL: ttls[r.Intn(len(ttls))], PtrN: r.Intn(3), PtrLease: rndLease()}
 	}
